@@ -19,7 +19,8 @@ reg(Prop(
          'the vector must then be what it was before the call (for a single-pass input range: the elements inserted before the failure stay, as '
          'in std::vector); likewise buffer::resize_write_area. read_from/read_from_opt (all sizes 0..12 x written 0..size) and dynamic_array (sizes 0..40) are judged too. Positions/counts are always valid for the current size; aliasing arguments refer '
          'to elements before/at/after the position. distinct = hash of the full operation history text.'
-         ' The raw_vector histories also run over an allocator whose pointer is a class type (fancy pointer).',
+         ' The raw_vector histories also run over an allocator whose pointer is a class type (fancy pointer).'
+         ' The two buffers of a buffer history live on different arenas (allocator instances that do not compare equal): swap, move assignment and the conversion to raw_vector return every block to the arena it came from.',
     assumptions=COMMON_ASSUMPTIONS + [
         'side conditions as for std::vector: valid positions, inserted ranges do not alias the vector, pop_back needs size > 0; the contents of a moved-from vector are unspecified (the shadow takes over what it reports) but it must be usable: histories continue on moved-from objects',
         'std::vector is the reference for contents and iterator offsets'],
